@@ -142,6 +142,29 @@ def naming_and_parser(ctx, res, n):
                         dict(case, namespace={k: v for k, v in ns0.items() if v is not None}))
         reqs.append({"cmd": "paths", "schema": C.wire_schema(sk, tmp)})
         pend.append((case, paths, acts))
+        # the schema grows after it has been enumerated and a parser generated: both follow
+        holders = [("", sk, schema)]
+        for p0, sf0 in all_paths(sk):
+            if sf0["s"] == "sub":
+                cur = schema
+                for q in p0.split("."):
+                    cur = cur._fields[q]
+                holders.append((p0 + ".", sf0["schema"], cur))
+        pre, hsk, hreal = rng.choice(holders)
+        newkey = "zz_late"
+        if not colliding(paths + [pre + newkey]):
+            import cincoconfig as _cc
+            hreal._add_field(newkey, _cc.IntField(default=7))
+            hsk["fields"].append([newkey, {"s": "leaf", "field": {"k": "int", "required": False}, "sensitive": False, "flag": False, "include": False,
+                                           "default": {"kind": "const", "v": 7}}])
+            got2 = [p for p, _, _ in cc.get_all_fields(schema)]
+            want2 = [p for p, _ in all_paths(sk)]
+            if got2 != want2:
+                res.violate("C16:enumeration-stale", "get_all_fields does not follow a field added after the first enumeration", dict(case, added=pre + newkey, got=got2, want=want2))
+            dests2 = [a.dest for a in cc.generate_argparse_parser(schema)._actions if a.dest != "help"]
+            if pre + newkey not in dests2:
+                res.violate("C16:parser-stale", "the generated parser does not offer a field added after the first generation", dict(case, added=pre + newkey))
+            hsk["fields"].pop()
     replies = ctx.model(reqs)
     if replies is not None:
         for (case, paths, acts), r in zip(pend, replies):
@@ -179,6 +202,8 @@ def gen_ops(rng, sk, tmp, n):
                 argv.append("%s=%s" % (o, v))
                 given.append((p, v))
         ignore = rng.choice([[], [], [p for p, _ in rng.sample(chosen, min(1, len(chosen)))], [p for p, _ in rng.sample(scal, min(2, len(scal)))], ["not-a-field"]])
+        if len(ignore) == 1 and rng.random() < 0.6:
+            ignore = ignore[0]                 # a single name may be given as a plain string
         ops.append({"op": "cmdline", "argv": argv, "given": given, "ignore": ignore})
     return ops
 
@@ -191,7 +216,8 @@ def oracle(res, case, sk, ops, impl, live, tmp, keypath):
         cur = st["state"]
         if op["op"] == "cmdline":
             supplied = {p: v for p, v in op["given"]}          # last occurrence wins
-            touched = {p for p in supplied if p not in op["ignore"]}
+            ign = [op["ignore"]] if isinstance(op["ignore"], str) else list(op["ignore"])
+            touched = {p for p in supplied if p not in ign}
             raised = isinstance(st["out"], dict) and "err" in st["out"]
             for p, sf in all_paths(sk):
                 if sf["s"] in ("sub", "ctype", "virtual", "method"):
@@ -201,7 +227,7 @@ def oracle(res, case, sk, ops, impl, live, tmp, keypath):
                 if p not in touched and json.dumps(C.jsonable_slot(a) if a else None, sort_keys=True) != json.dumps(C.jsonable_slot(b) if b else None, sort_keys=True):
                     res.violate("C16:override-touched-unsupplied", "cmdline_args_override changed a field the command line did not supply (or asked to ignore)",
                                 dict(case, at=n, op=op, path=p))
-            nt = 0 < len(touched) and len(set(supplied) & set(op["ignore"])) > 0
+            nt = 0 < len(touched) and len(set(supplied) & set(ign)) > 0
             if nt:
                 res.nontrivial.add(stable([case["schema"], op]))
         prev = cur
